@@ -544,7 +544,9 @@ def variant_args(name, comps):
 # clones that fail AFTER the output has been opened: the promise "nothing is removed or renamed, no
 # other file is written" holds for them as well
 FAIL_MODES = ["fail-missing-seed", "fail-missing-seed-in-place", "fail-corrupt-chunk", "fail-corrupt-chunk-in-place",
-              "fail-dangling-symlink", "fail-busy-executable"]
+              "fail-dangling-symlink", "fail-busy-executable",
+              # the archive path is a named pipe (not seekable): whatever the command does about it, it writes nowhere else
+              "fail-archive-is-fifo"]
 
 
 def clone_cases(tier):
@@ -562,6 +564,8 @@ def clone_cases(tier):
     for variant in variants:
         for mode in FAIL_MODES:
             for loc in LOCS:
+                if mode == "fail-archive-is-fifo" and loc != "local":
+                    continue
                 for style in STYLES:
                     cases.append({"kind": "clone", "mode": mode, "loc": loc, "verify": VERIFY[0],
                                   "style": style, "variant": variant})
@@ -702,7 +706,22 @@ def run_clone_case(env_, case, case_dir, log_path):
         argv.append("--verify-output")
     elif case["verify"] == "verify-header":
         argv += ["--verify-header", var["checksum"]]
-    if case["loc"] == "local":
+    feeder = None
+    if case["loc"] == "local" and mode == "fail-archive-is-fifo":
+        import threading
+        fifo = os.path.join(case_dir, "arch", "a.cba")
+        os.mkfifo(fifo)
+
+        def feed(fifo=fifo, data=archive_bytes):
+            try:
+                with open(fifo, "wb") as f:
+                    f.write(data)
+            except OSError:
+                pass
+        feeder = (threading.Thread(target=feed, daemon=True), fifo)
+        feeder[0].start()
+        argv.append(P(os.path.join("arch", "a.cba")))
+    elif case["loc"] == "local":
         with open(os.path.join(case_dir, "arch", "a.cba"), "wb") as f:
             f.write(archive_bytes)
         argv.append(P(os.path.join("arch", "a.cba")))
@@ -724,6 +743,13 @@ def run_clone_case(env_, case, case_dir, log_path):
         if busy is not None:
             busy.kill()
             busy.wait()
+        if feeder is not None:
+            try:
+                fd = os.open(feeder[1], os.O_RDONLY | os.O_NONBLOCK)   # releases a feeder nobody listened to
+                feeder[0].join(timeout=2)
+                os.close(fd)
+            except OSError:
+                pass
     after = snapshot(case_dir)
     obs = r["obs"]
     out_real = os.path.realpath(out_abs)
